@@ -4,6 +4,7 @@ package verifharness
 
 import (
 	"encoding/json"
+	"runtime/debug"
 	"fmt"
 	"os"
 	"strings"
@@ -193,3 +194,22 @@ func dumpPath() string { return os.Getenv("VERIF_DUMP") }
 func writeFile(path, content string) error { return os.WriteFile(path, []byte(content), 0o644) }
 
 func isThorough() bool { return os.Getenv("VERIF_TIER") == "thorough" }
+
+// callTarget runs a call into escalator and turns a panic inside it into a violation of the
+// check's property (the call must contain no rapid draws or assertions).
+func callTarget(rt *rapid.T, prop, what string, f func()) {
+	defer func() {
+		if r := recover(); r != nil {
+			if strings.Contains(fmt.Sprintf("%T", r), "exitSentinel") {
+				panic(r)
+			}
+			msg := fmt.Sprintf("%s panicked: %v\n%s", what, r, debug.Stack())
+			if p := dumpPath(); p != "" {
+				_ = writeFile(p, "VIOLATION "+prop+":panic-in-code-under-test\n"+msg+"\n")
+			}
+			rt.Logf("%s", msg)
+			rt.Fatalf("VIOLATION %s:panic-in-code-under-test", prop)
+		}
+	}()
+	f()
+}
